@@ -34,7 +34,8 @@ type Leaf struct {
 // Node returns the tree node of the leaf.
 func (l *Leaf) Node() *Node { return l.node }
 
-// Leaves enumerates the leaves of the tree in document order.  Paths: ".name" selects the value
+// Leaves enumerates the leaves of the tree in document order ("^" enters the CBOR item embedded
+// in a byte string, e.g. a proof carried as opaque bytes).  Paths: ".name" selects the value
 // of the map pair whose key is the text "name" (".#i" the value of pair i when the key is not
 // text), "~i" the KEY of pair i, "[i]" element i of an array, "!" the content of a tag; the
 // leaf itself is named by a suffix: "" for content (bytes, text, integer, simple), "@len" for an
@@ -50,6 +51,9 @@ func Leaves(root *Node) []*Leaf {
 			out = append(out, &Leaf{Path: path, Kind: KNint, Field: field, Shape: n.Shape(), Bits: 64, node: n})
 		case 2:
 			out = append(out, &Leaf{Path: path, Kind: KBytes, Field: field, Shape: n.Shape(), Bits: 8 * len(n.Data), node: n})
+			if n.Nested != nil {
+				walk(n.Nested, path+"^", field) // "^": inside the CBOR item embedded in this byte string
+			}
 		case 3:
 			out = append(out, &Leaf{Path: path, Kind: KText, Field: field, Shape: n.Shape(), Bits: 8 * len(n.Data), node: n})
 		case 4:
@@ -114,6 +118,14 @@ func parent(root, n *Node) (*Node, int) {
 			return root, i
 		}
 		if p, j := parent(k, n); p != nil {
+			return p, j
+		}
+	}
+	if root.Nested != nil {
+		if root.Nested == n {
+			return root, -2
+		}
+		if p, j := parent(root.Nested, n); p != nil {
 			return p, j
 		}
 	}
@@ -196,6 +208,9 @@ func Apply(payload []byte, path string, op Op) (out []byte, changed bool, err er
 		return nil, false, fmt.Errorf("no leaf %q", path)
 	}
 	n := l.node
+	if l.Kind == KBytes {
+		n.Nested = nil // the outer bytes themselves are mutated: they are opaque from here on
+	}
 	switch op.Kind {
 	case OpFlip:
 		switch l.Kind {
@@ -336,6 +351,10 @@ func (p *Pool) Add(src string, payload []byte) {
 			}
 		}
 		switch n.Major {
+		case 2:
+			if n.Nested != nil {
+				walk(n.Nested, path+"^")
+			}
 		case 4:
 			for i, k := range n.Kids {
 				walk(k, fmt.Sprintf("%s[%d]", path, i))
@@ -414,6 +433,10 @@ func PathOf(root, n *Node) (string, bool) {
 			return
 		}
 		switch m.Major {
+		case 2:
+			if m.Nested != nil {
+				walk(m.Nested, path+"^")
+			}
 		case 4:
 			for i, k := range m.Kids {
 				walk(k, fmt.Sprintf("%s[%d]", path, i))
@@ -451,6 +474,10 @@ func NodeAt(root *Node, path string) *Node {
 			return
 		}
 		switch m.Major {
+		case 2:
+			if m.Nested != nil {
+				walk(m.Nested, p+"^")
+			}
 		case 4:
 			for i, k := range m.Kids {
 				walk(k, fmt.Sprintf("%s[%d]", p, i))
